@@ -26,6 +26,7 @@ type GenerateSettings struct {
 	typeUnmarshallers map[string]string
 	typeLengthers     map[string]string
 	customRecordTypes map[string]struct{}
+	fixedSizes        map[string]uint8
 
 	ImportGenerationMode
 	imported          []File
@@ -402,6 +403,7 @@ func (f File) Generate(inputWriter io.Writer, settings GenerateSettings) error {
 	settings.typeUnmarshallers = f.typeUnmarshallers(settings)
 	settings.typeLengthers = f.typeLengthers()
 	settings.customRecordTypes = f.customRecordTypes()
+	settings.fixedSizes = f.fixedSizes()
 
 	usedTypes := f.usedTypes()
 	if settings.PackageName == "" && f.GoPackage != "" {
@@ -633,7 +635,7 @@ func writeFieldReadByter(name string, typ FieldType, w *iohelp.ErrorWriter, sett
 		writeLineWithTabs(w, "%ASGN = make([]%TYPE, iohelp.ReadUint32Bytes(buf[at:]))", depth, name, typ.Array.goString(settings))
 		writeLineWithTabs(w, "at += 4", depth)
 		if safe {
-			if sz, ok := fixedSizeTypes[typ.Array.Simple]; ok {
+			if sz, ok := settings.fixedSizes[settings.aliased(typ.Array.Simple)]; ok {
 				writeLengthCheck(w, "len(%ASGN)*"+strconv.Itoa(int(sz)), depth, name)
 				safe = false
 			}
@@ -649,6 +651,9 @@ func writeFieldReadByter(name string, typ FieldType, w *iohelp.ErrorWriter, sett
 		writeLineWithTabs(w, "}", depth)
 	} else if typ.Map != nil {
 		lnName := lengthName(settings)
+		if safe {
+			writeLengthCheck(w, "4", depth)
+		}
 		writeLineWithTabs(w, lnName+" := iohelp.ReadUint32Bytes(buf[at:])", depth)
 		writeLineWithTabs(w, "at += 4", depth)
 		writeLineWithTabs(w, "%ASGN = make(%TYPE,"+lnName+")", depth, name, typ.Map.goString(settings))
@@ -657,7 +662,7 @@ func writeFieldReadByter(name string, typ FieldType, w *iohelp.ErrorWriter, sett
 		if format, ok := settings.typeByteReaders[typ.Map.Key+hintSafeKey]; ok && safe {
 			ln = getLineWithTabs(format, depth+1, depthName("k", depth), simpleGoString(typ.Map.Key, settings))
 		} else {
-			if sz, ok := fixedSizeTypes[typ.Map.Key]; ok && safe {
+			if sz, ok := settings.fixedSizes[typ.Map.Key]; ok && safe {
 				writeLengthCheck(w, strconv.Itoa(int(sz)), depth+1, depthName("k", depth))
 			}
 			ln = getLineWithTabs(settings.typeByteReaders[typ.Map.Key], depth+1, depthName("k", depth), typ.goString(settings))
@@ -673,7 +678,7 @@ func writeFieldReadByter(name string, typ FieldType, w *iohelp.ErrorWriter, sett
 		if format, ok := settings.typeByteReaders[simpleTyp+hintSafeKey]; ok && safe {
 			writeLineWithTabs(w, format, depth, name, typ.goString(settings))
 		} else {
-			if sz, ok := fixedSizeTypes[simpleTyp]; ok && safe {
+			if sz, ok := settings.fixedSizes[simpleTyp]; ok && safe {
 				writeLengthCheck(w, strconv.Itoa(int(sz)), depth, name)
 			}
 			writeLineWithTabs(w, settings.typeByteReaders[simpleTyp], depth, name, typ.goString(settings))
@@ -723,7 +728,7 @@ func typeNeedsElem(typ string, settings GenerateSettings) bool {
 func writeFieldBodyCount(name string, typ FieldType, w io.Writer, settings GenerateSettings, depth int) {
 	if typ.Array != nil {
 		writeLineWithTabs(w, "bodyLen += 4", depth)
-		if sz, ok := fixedSizeTypes[typ.Array.Simple]; ok {
+		if sz, ok := settings.fixedSizes[settings.aliased(typ.Array.Simple)]; ok {
 			// short circuit-- write length times elem size
 			writeLineWithTabs(w, "bodyLen += len(%ASGN) * "+strconv.Itoa(int(sz)), depth, name)
 			return
